@@ -184,7 +184,9 @@ def record_random(seed: int, nops: int) -> dict:
 				di.invoke(g, *extras)
 			elif len(conts) < 8:
 				conts.append(di.combine(rnd.choice(conts)))
-		except (ValueError, TypeError, IndexError, KeyError):
+		except Machinery:
+			raise
+		except Exception:  # whatever the container raises is in the recorded event; the trace specification judges it
 			pass
 	shutil.rmtree(scratch, ignore_errors=True)
 	return finalize_trace(rec)
